@@ -82,6 +82,7 @@ type Grammar struct {
 	HeaderCode    string   // Go declarations written into the file header after the import block
 	RawUsesToken  bool     // a raw action uses a $T form: the header must import the token package
 	Big           bool     // about a thousand LR(1) states: seconds per gocc run; quick tiers of C09 skip it
+	Heavy         bool     // large tables (seconds to compile): only the checks that name it use it in parser drivers
 	GoccOnly      bool     // only used by the checks that run gocc itself (C09, C11), not by the parser drivers
 	Optional      bool     // seeded random grammar: dropped (not failed) if gocc refuses it
 	NoCompile     bool     // header/actions are not valid Go in the harness module (text taken from elsewhere)
